@@ -66,6 +66,19 @@
                     }
                 }
             }
+            // entering column, both rules: non-basic with a reduced cost below zero beyond the tolerance; None only when there is none
+            for use_bland in [false, true] {
+                cases += 1;
+                let eligible: Vec<usize> = (0..ncols).filter(|j| !t.in_basis.contains(j) && crate::math::float_lt(t.c[*j], 0.0)).collect();
+                let bad = match t.find_h(&[], use_bland) {
+                    None => if eligible.is_empty() { None } else { Some(format!("None although column {} is eligible", eligible[0])) },
+                    Some(h) => if eligible.contains(&h) { None } else { Some(format!("column {} entered: basic or reduced cost {} not below zero", h, t.c[h])) },
+                };
+                if let Some(msg) = bad {
+                    fails += 1;
+                    if fails < 20 { println!("WITNESS-FAIL {{\"fn\": \"Tableau::find_h\", \"clause\": \"the entering column is non-basic and its reduced cost is below zero beyond the tolerance\", \"tableau\": \"{}\", \"bland\": {}, \"detail\": \"{}\"}}", esc(what.clone()), use_bland, esc(msg)); }
+                }
+            }
             // one step from a feasible tableau stays feasible within the tolerance: the new right-hand side of row i is a[i][h] * (ratio_i - ratio_chosen),
             // so the bound -tolerance is asked only of tableaux whose entries are at most 1
             if t.b.iter().all(|v| *v >= 0.0) && t.a.iter().all(|row| row.iter().all(|v| *v <= 1.0)) {
